@@ -58,11 +58,19 @@ func runNBRandom(w *rt.World, res *hx.Result, kind int) *hx.Violation {
 		clN[c] = 1 + hx.G(maxReqs)
 	}
 	nClients := 2 + hx.G(maxClients-1)
+	flood := hx.G(4) == 0 // client 0 sends a burst of up to 40 datagrams
+	floodN := 8 + hx.G(33)
 	churnOn := hx.G(3) != 0
 	churnRounds := 1 + hx.G(3)
 	churnTCP := kind == 2 && hx.G(2) == 0
-	stopMode := hx.F(8) // 0..1: after the clients; else: at a chosen time while they run
-	stopAt := [...]int64{0, 0, 0, 1e6, 10e6, 100e6, 1e9, 6e9}[stopMode]
+	stopMode := hx.F(13) // 0..1: after the clients; 2..7: at a chosen time while they run; 8..9: when client 0 has sent its k-th request
+	// 10: when some SUT task is blocked on a channel; 11: when >= 3 packet handlers are alive; 12: when a SUT task waits for a lock
+	stopAt := [...]int64{0, 0, 0, 1e6, 10e6, 100e6, 1e9, 6e9, 0, 0, 0, 0, 0}[stopMode]
+	if fb := hx.F(2); flood && fb == 0 {
+		stopMode = 10 // a burst is the situation in which internal queues fill up: place the Stop there
+	}
+	stopAfterK := 1 + hx.F(40)
+	stopTrigger := &rt.Flag{}
 	abortPos := hx.F(1 << 12)
 
 	sys := startNB(kind)
@@ -77,11 +85,22 @@ func runNBRandom(w *rt.World, res *hx.Result, kind int) *hx.Violation {
 	idc := uint16(0x1000 + hx.G(0x4000))
 	for c := 0; c < nClients; c++ {
 		cl := &nbClient{idx: c, host: fmt.Sprintf("10.0.1.%d", c+1), abortAt: -1, ioDone: &rt.Flag{}, release: release}
+		if c == 0 {
+			cl.trigger, cl.triggerAt = stopTrigger, stopAfterK
+		}
 		cl.tcp = kind == 2 && clTCP[c] == 0
 		cl.linger = cl.tcp && clLinger[c] <= 1
 		cl.silent = cl.tcp && clLinger[c] == 1
-		for r := 0; r < clN[c]; r++ {
-			g := pool[c][r]
+		nreq := clN[c]
+		if flood && c == 0 {
+			nreq = floodN
+			rt.Probe(PFlood)
+		}
+		for r := 0; r < nreq; r++ {
+			g := pool[c][r%maxReqs]
+			if r >= maxReqs {
+				g.gap, g.big = 0, 1
+			}
 			var qn []string
 			nq := g.nq
 			if g.big == 0 {
@@ -142,6 +161,13 @@ func runNBRandom(w *rt.World, res *hx.Result, kind int) *hx.Violation {
 				}
 			}
 		}
+		{
+			pq := buildRequest(0x7001, 0, 0, []string{nameOf(0)}, "", nil, 0, false)
+			expUDP[stripID(pq)] = udpExchange(pq, 3*time.Second)
+			if kind == 2 {
+				expTCP[stripID(pq)] = tcpExchange(pq, 3*time.Second)
+			}
+		}
 		for _, cl := range clients {
 			for _, r := range cl.reqs {
 				if r.churn {
@@ -183,7 +209,24 @@ func runNBRandom(w *rt.World, res *hx.Result, kind int) *hx.Violation {
 	if stopMode >= 2 {
 		stoppedEarly = true
 		stopper = rt.GoHarness("stopper", serverHost, func() {
-			rt.SleepUntil(startT + stopAt)
+			switch {
+			case stopMode == 10:
+				if rt.WaitState(&rt.StateCond{BlockedIn: "channel send"}, startT+10e9) {
+					rt.Probe(PStopStateTriggered)
+				}
+			case stopMode == 11:
+				if rt.WaitState(&rt.StateCond{LiveSite: "handlePacket", LiveAtLeast: 3}, startT+10e9) {
+					rt.Probe(PStopStateTriggered)
+				}
+			case stopMode == 12:
+				if rt.WaitState(&rt.StateCond{BlockedIn: "sync."}, startT+10e9) {
+					rt.Probe(PStopStateTriggered)
+				}
+			case stopMode >= 8:
+				stopTrigger.Wait(startT + 10e9) // progress-triggered: in the middle of client 0's burst
+			default:
+				rt.SleepUntil(startT + stopAt)
+			}
 			noteStop()
 			sys.stop()
 		})
@@ -203,8 +246,32 @@ func runNBRandom(w *rt.World, res *hx.Result, kind int) *hx.Violation {
 		rt.Join(churnTask, -1)
 	}
 
-	// ---- shutdown phase: no more faults; Stop must return, every SUT task must exit
+	// ---- quiet phase: once faults have stopped the server still answers (bounded liveness)
 	w.Quiet = true
+	if !stoppedEarly {
+		var pu, pt []byte
+		probeReq := buildRequest(0x7001, 0, 0, []string{nameOf(0)}, "", nil, 0, false)
+		var expU, expT []byte
+		pr := rt.GoHarness("probe", "10.0.1.251", func() {
+			pu = udpExchange(probeReq, 3*time.Second)
+			if kind == 2 {
+				pt = tcpExchange(probeReq, 3*time.Second)
+			}
+		})
+		rt.Join(pr, -1)
+		expU = expUDP[stripID(probeReq)]
+		expT = expTCP[stripID(probeReq)]
+		if expU != nil && (pu == nil || !equalModID(pu, expU)) {
+			return &hx.Violation{Class: "no_response", Key: sysName + "/after-faults",
+				Msg: "after all faults had stopped, a single name query over UDP got " + describeOrNone(pu) + ", expected " + describeResp(expU)}
+		}
+		if kind == 2 && expT != nil && (pt == nil || !equalModID(pt, expT)) {
+			return &hx.Violation{Class: "no_response", Key: sysName + "/tcp-after-faults",
+				Msg: "after all faults had stopped, a single name query over TCP got " + describeOrNone(pt) + ", expected " + describeResp(expT)}
+		}
+	}
+
+	// ---- shutdown phase: no more faults; Stop must return, every SUT task must exit
 	if stopper == nil {
 		stopper = rt.GoHarness("stopper", serverHost, func() {
 			noteStop()
@@ -349,6 +416,10 @@ func describeResp(b []byte) string {
 }
 
 func noteStop() {
+	c := rt.StateCond{BlockedIn: "channel send"}
+	if c.Ready(nil) {
+		rt.Probe(PStopWhileChanBlocked)
+	}
 	if rt.CountLiveSUT("handlePacket")+rt.CountLiveSUT("processHandlers") >= 2 {
 		rt.Probe(PTwoHandlersAlive)
 	}
@@ -376,6 +447,9 @@ func udpClient(cl *nbClient) {
 		}
 		if _, err := c.WriteToUDP(r.bytes, &net.UDPAddr{IP: serverIP, Port: 137}); err != nil {
 			return
+		}
+		if cl.trigger != nil && (i+1 == cl.triggerAt || i+1 == len(cl.reqs)) {
+			cl.trigger.Set()
 		}
 	}
 	cl.sentAll = true
@@ -444,6 +518,9 @@ func tcpClient(cl *nbClient, window int) {
 	}
 	if _, err := c.Write(stream); err != nil {
 		return
+	}
+	if cl.trigger != nil {
+		cl.trigger.Set()
 	}
 	cl.sentAll = true
 	for len(cl.got) < len(cl.reqs) {
@@ -541,4 +618,11 @@ func describeAll(set [][]byte) string {
 		s += describeResp(a)
 	}
 	return s
+}
+
+func describeOrNone(b []byte) string {
+	if b == nil {
+		return "no answer"
+	}
+	return describeResp(b)
 }
